@@ -1,7 +1,11 @@
 #!/bin/bash
-# usage: process_seed.sh <dir with patch.diff demo_test.go notes.md> <property>...  — verify_seed + quick checks in scratch copies
+# usage: process_seed.sh <dir with patch.diff demo_test.go notes.md> <property>...
+# verify_seed + the quick checks of the named properties in scratch copies (VERIF_SEED=1), then the first
+# property once more at VERIF_SEED=2 (a catch that depends on the seed is a flaky catch).
 d=$(readlink -f $1); shift
 echo "### $(head -1 $d/notes.md)"
 mkdir -p /tmp/wt
 /verif/tools/verify_seed.sh $d 2>&1 | grep -A2 "^RESULT"
 /verif/tools/try_seed_wt.sh $d/patch.diff "$@"
+echo "--- second seed"
+VERIF_SEED=2 /verif/tools/try_seed_wt.sh $d/patch.diff "$1" | grep "^== "
